@@ -1445,3 +1445,428 @@ Proof.
     rewrite (obs_str publish_map false AddSub ps a2 Hnd Hok Hdup 3 (M F_contentType)) by (reflexivity || discriminate || (unfold a2; destruct c; reflexivity)).
     unfold pidv. reflexivity.
 Qed.
+
+(* ------------------------------------------------------------------ *)
+(* CONNECT *)
+Lemma table_connect : table_ok 1 connect_map false NoSub = true.
+Proof. vm_compute. reflexivity. Qed.
+Lemma table_will : table_ok 100 will_map true NoSub = true.
+Proof. vm_compute. reflexivity. Qed.
+
+Lemma getf_apply_other m will sm ps acc r :
+  forallb (fun e => negb (fref_eqb r (eref e))) m = true ->
+  getf r (apply_props m will sm ps acc) = getf r acc.
+Proof.
+  intros H. apply apply_props_getf_other. intros id r0 w0 Hl Er. subst r0.
+  apply lookup_in_map in Hl. rewrite forallb_forall in H. specialize (H _ Hl). cbn [eref fst snd] in H.
+  rewrite fref_eqb_refl in H. discriminate.
+Qed.
+
+Ltac getf_down2 :=
+  repeat first
+    [ rewrite getf_setf_same
+    | rewrite getf_setf_other by reflexivity
+    | rewrite getf_apply_other by reflexivity
+    | rewrite getf_will_init_M ].
+
+Definition will_block_s (wp : list aprop) (wt wpl : list byte) (a : pkt) : pkt :=
+  let a7 := will_init a in
+  let a8 := apply_props will_map true NoSub wp a7 in
+  let a9 := setf (W F_topicName) (canon Bin (VS wt)) a8 in
+  let a10 := setf (M F_willPayload) (canon Bin (VS wpl)) a9 in
+  setf (W F_payload) (VS (getS (M F_willPayload) a10)) a10.
+
+Definition will_bytes_s (w : awill) : list byte :=
+  e_props (w_props w) ++ e_str (w_topic w) ++ e_str (w_payload w).
+
+Lemma dif_will_spec_at w acc d pos rest steps :
+  sprops_ok 100 (w_props w) -> len (e_props_raw (w_props w)) < 268435456 ->
+  len (w_topic w) < 65536 -> len (w_payload w) < 65536 ->
+  valS (getf (M F_willPayload) acc) = [] -> valN (getf (M F_willDelayInterval) acc) = 0 ->
+  has (getN (M F_flags) acc) WillFlag = true ->
+  at_pos d pos (will_bytes_s w ++ rest) ->
+  exists steps',
+    run_dec1 (DIf (CHas (M F_flags) WillFlag)
+                  [DWillInit; DGetAny will_map true NoSub; DGet (W F_topicName) Bin;
+                   DGet (M F_willPayload) Bin; DWillPayloadCopy]) (mk_state acc d pos steps) =
+      Run (mk_state (will_block_s (w_props w) (w_topic w) (w_payload w) acc) d
+                    (pos + length (will_bytes_s w)) steps')
+    /\ at_pos d (pos + length (will_bytes_s w)) rest.
+Proof.
+  intros Hps HR Htopic Hwpl Hz Hzd Hc Hat. rewrite dif_step.
+  change (eval_cond (CHas (M F_flags) WillFlag) (dp (mk_state acc d pos steps)) (env_of (mk_state acc d pos steps)))
+    with (has (getN (M F_flags) acc) WillFlag). rewrite Hc.
+  unfold will_bytes_s in *. rewrite (e_str_enc_bin _ Htopic), (e_str_enc_bin _ Hwpl) in *.
+  pose proof (sprops_prop_ok _ will_map true NoSub _ table_will Hps) as Hok.
+  pose proof (sprops_keyed _ _ Hps) as Hdup.
+  set (wp := w_props w) in *. set (wtp := w_topic w) in *. set (wpl := w_payload w) in *.
+  set (a7 := will_init acc).
+  assert (D0 : run_dec1 DWillInit (mk_state acc d pos steps) = Run (mk_state a7 d pos steps)) by reflexivity.
+  rewrite <- !app_assoc in Hat.
+  destruct (dgetany_spec_at will_map true NoSub wp a7 d pos (enc_bin wtp ++ enc_bin wpl ++ rest) steps)
+    as [st1 [D1 H1]]; try assumption; try reflexivity; try discriminate; try apply will_map_ok.
+  { intros ap _ _ r w0 Hl Hb. apply lookup_in_map in Hl. unfold will_map in Hl. cbn [In] in Hl.
+    destruct Hl as [Hl|Hl].
+    - injection Hl as _ _ <-. discriminate Hb.
+    - repeat (destruct Hl as [Hl|Hl]; [injection Hl as _ <- _; reflexivity|]). contradiction. }
+  set (a8 := apply_props will_map true NoSub wp a7) in *.
+  assert (Hw8 : hasWill a8 = true) by (unfold a8; rewrite hasWill_apply_props; reflexivity).
+  destruct (dget_at (W F_topicName) Bin (VS wtp) a8 d (pos + length (e_props wp)) (enc_bin wpl ++ rest) st1)
+    as [D2 H2]; try discriminate; try assumption.
+  { intros _. right. unfold a8. rewrite getf_apply_other by reflexivity. reflexivity. }
+  set (a9 := setf (W F_topicName) (canon Bin (VS wtp)) a8) in *.
+  destruct (dget_at (M F_willPayload) Bin (VS wpl) a9 d
+              (pos + length (e_props wp) + length (encode Bin (VS wtp))) rest (S st1)) as [D3 H3];
+    try discriminate; try assumption; try exact I.
+  { intros _. right. unfold a9, a8, a7. getf_down2. exact Hz. }
+  set (a10 := setf (M F_willPayload) (canon Bin (VS wpl)) a9) in *.
+  exists (S (S st1)). split.
+  - cbn [run_dec]. rewrite D0, D1, D2, D3. cbn [run_dec1].
+    assert (Hw10 : hasWill (dp (mk_state a10 d (pos + length (e_props wp) + length (encode Bin (VS wtp)) +
+                     length (encode Bin (VS wpl))) (S (S st1)))) = true).
+    { cbn [dp mk_state]. unfold a10, a9. rewrite !hasWill_setf. exact Hw8. }
+    rewrite Hw10. unfold with_pkt, mk_state. cbn [dp ddata dpos derr dsteps].
+    unfold will_block_s. cbv zeta. fold a7 a8 a9 a10. do 2 f_equal. rewrite !app_length. cbn [encode valS]. lia.
+  - rewrite !app_length. cbn [encode valS] in H3. rewrite <- !Nat.add_assoc in *. exact H3.
+Qed.
+
+Lemma connect_flag_bits fl : fl < 256 ->
+  has fl WillFlag = N.testbit fl 2 /\ has fl UsernameFlag = N.testbit fl 7 /\ has fl PasswordFlag = N.testbit fl 6
+  /\ has fl CleanStart = N.testbit fl 1
+  /\ ((fl / 8) mod 4 <> 3 ->
+      has (will_fixed fl) DUP = false /\ has (will_fixed fl) RETAIN = N.testbit fl 5
+      /\ qos_of_fixed (will_fixed fl) = (fl / 8) mod 4).
+Proof.
+  intros Hfl.
+  assert (H : forallb (fun fl =>
+     Bool.eqb (has fl WillFlag) (N.testbit fl 2) && Bool.eqb (has fl UsernameFlag) (N.testbit fl 7)
+     && Bool.eqb (has fl PasswordFlag) (N.testbit fl 6) && Bool.eqb (has fl CleanStart) (N.testbit fl 1)
+     && (((fl / 8) mod 4 =? 3) ||
+         (negb (has (will_fixed fl) DUP) && Bool.eqb (has (will_fixed fl) RETAIN) (N.testbit fl 5)
+          && (qos_of_fixed (will_fixed fl) =? (fl / 8) mod 4)))) all_N256 = true) by (vm_compute; reflexivity).
+  pose proof (forall_N256 _ H fl Hfl) as H1. cbv beta in H1.
+  apply andb_prop in H1 as [H1 H5]. apply andb_prop in H1 as [H1 H4]. apply andb_prop in H1 as [H1 H3].
+  apply andb_prop in H1 as [H1 H2].
+  split; [apply Bool.eqb_prop; exact H1|]. split; [apply Bool.eqb_prop; exact H2|].
+  split; [apply Bool.eqb_prop; exact H3|]. split; [apply Bool.eqb_prop; exact H4|].
+  intros Hq. rewrite (proj2 (N.eqb_neq _ _) Hq) in H5. cbn [orb] in H5.
+  apply andb_prop in H5 as [H5 H8]. apply andb_prop in H5 as [H6 H7].
+  split; [apply negb_true_iff; exact H6|]. split; [apply Bool.eqb_prop; exact H7|apply N.eqb_eq; exact H8].
+Qed.
+
+Definition opt_ok (o : option (list byte)) : Prop := match o with Some s => len s < 65536 | None => True end.
+
+Record connect_frame_ok (flags ka : N) (ps : list aprop) (cid : list byte) (will : option awill)
+       (user pass : option (list byte)) : Prop := {
+  cf_flags : flags < 256;
+  cf_wqos : (flags / 8) mod 4 <> 3;
+  cf_ka : ka < 65536;
+  cf_props : sprops_ok 1 ps /\ len (e_props_raw ps) < 268435456;
+  cf_cid : len cid < 65536;
+  cf_will : match will with
+            | Some w => N.testbit flags 2 = true /\ sprops_ok 100 (w_props w)
+                        /\ len (e_props_raw (w_props w)) < 268435456
+                        /\ len (w_topic w) < 65536 /\ len (w_payload w) < 65536
+            | None => N.testbit flags 2 = false
+            end;
+  cf_user : opt_ok user /\ (N.testbit flags 7 = match user with Some _ => true | None => false end);
+  cf_pass : opt_ok pass /\ (N.testbit flags 6 = match pass with Some _ => true | None => false end)
+}.
+
+Lemma mqtt_name_bin : mqtt_name = enc_bin mqtt5.
+Proof. reflexivity. Qed.
+
+Theorem accept_connect flags ka ps cid will user pass :
+  connect_frame_ok flags ka ps cid will user pass ->
+  accepts {| af_type := 1; af_flags := 0; af_body := BConnect flags ka ps cid will user pass |}.
+Proof.
+  intros [Hfl Hwq Hka [Hps HR] Hcid Hwill [Hus Hub] [Hpa Hpb]].
+  destruct (connect_flag_bits flags Hfl) as [Bw [Bu [Bp [Bc Bwill]]]].
+  destruct (Bwill Hwq) as [Wdup [Wret Wqos]]. clear Bwill.
+  pose proof (sprops_prop_ok _ connect_map false NoSub ps table_connect Hps) as Hok.
+  pose proof (sprops_keyed _ ps Hps) as Hdup.
+  assert (Hnd : nodup_refs connect_map = true) by apply connect_map_ok.
+  set (fresh := setf (M F_fixed) (VN (ctor_fixed KConnect)) zero_pkt).
+  set (a1 := setf (M F_protocolName) (canon Bin (VS mqtt5)) fresh).
+  set (a2 := setf (M F_protocolVersion) (canon U8 (VN 5)) a1).
+  set (a3 := setf (M F_flags) (canon U8 (VN flags)) a2).
+  set (a4 := setf (M F_keepAlive) (canon U16 (VN ka)) a3).
+  set (WILL := match will with Some w => will_bytes_s w | None => [] end).
+  set (USER := e_opt user). set (PASS := e_opt pass).
+  set (body := enc_bin mqtt5 ++ e_u8 5 ++ e_u8 flags ++ e_u16 ka ++ e_props ps ++ enc_bin cid ++ WILL ++ USER ++ PASS).
+  assert (Ebody : e_body (BConnect flags ka ps cid will user pass) = body).
+  { cbn [e_body]. rewrite mqtt_name_bin, (e_str_enc_bin cid Hcid). unfold body, WILL, will_bytes_s.
+    destruct will; reflexivity. }
+  destruct (dget_at (M F_protocolName) Bin (VS mqtt5) fresh body 0
+              (e_u8 5 ++ e_u8 flags ++ e_u16 ka ++ e_props ps ++ enc_bin cid ++ WILL ++ USER ++ PASS) 0)
+    as [D1 H1]; try discriminate; try exact I.
+  { cbn. reflexivity. }
+  { intros _. right. reflexivity. }
+  { apply at_pos_0. }
+  fold a1 in D1.
+  destruct (dget_at (M F_protocolVersion) U8 (VN 5) a1 body (0 + length (encode Bin (VS mqtt5)))
+              (e_u8 flags ++ e_u16 ka ++ e_props ps ++ enc_bin cid ++ WILL ++ USER ++ PASS) 1)
+    as [D2 H2]; try discriminate; try exact I; try assumption.
+  { cbn. reflexivity. }
+  fold a2 in D2.
+  destruct (dget_at (M F_flags) U8 (VN flags) a2 body
+              (0 + length (encode Bin (VS mqtt5)) + length (encode U8 (VN 5)))
+              (e_u16 ka ++ e_props ps ++ enc_bin cid ++ WILL ++ USER ++ PASS) 2)
+    as [D3 H3]; try discriminate; try exact I; try assumption.
+  fold a3 in D3.
+  destruct (dget_at (M F_keepAlive) U16 (VN ka) a3 body
+              (0 + length (encode Bin (VS mqtt5)) + length (encode U8 (VN 5)) + length (encode U8 (VN flags)))
+              (e_props ps ++ enc_bin cid ++ WILL ++ USER ++ PASS) 3)
+    as [D4 H4]; try discriminate; try exact I; try assumption.
+  fold a4 in D4.
+  set (pos4 := (0 + length (encode Bin (VS mqtt5)) + length (encode U8 (VN 5)) + length (encode U8 (VN flags))
+                + length (encode U16 (VN ka)))%nat) in *.
+  destruct (dgetany_spec_at connect_map false NoSub ps a4 body pos4 (enc_bin cid ++ WILL ++ USER ++ PASS) 4)
+    as [st5 [D5 H5]]; try assumption; try reflexivity; try discriminate.
+  { intros ap _ _ r w Hl _. apply lookup_in_map in Hl. unfold connect_map in Hl. cbn [In] in Hl.
+    repeat (destruct Hl as [Hl|Hl]; [injection Hl as _ <- _; reflexivity|]). contradiction. }
+  set (a5 := apply_props connect_map false NoSub ps a4) in *.
+  set (pos5 := (pos4 + length (e_props ps))%nat) in *.
+  destruct (dget_at (M F_clientID) Bin (VS cid) a5 body pos5 (WILL ++ USER ++ PASS) st5)
+    as [D6 H6]; try discriminate; try exact I; try assumption.
+  { intros _. right. unfold a5. getf_down2. reflexivity. }
+  set (a6 := setf (M F_clientID) (canon Bin (VS cid)) a5) in *.
+  set (pos6 := (pos5 + length (encode Bin (VS cid)))%nat) in *.
+  assert (Hfl6 : getN (M F_flags) a6 = flags).
+  { unfold getN, a6, a5. getf_down2. unfold a4. getf_down2. unfold a3. getf_down2. reflexivity. }
+  (* the will *)
+  set (aw := match will with
+             | Some w => will_block_s (w_props w) (w_topic w) (w_payload w) a6
+             | None => a6 end).
+  assert (D7 : exists st7,
+    run_dec1 (DIf (CHas (M F_flags) WillFlag)
+                  [DWillInit; DGetAny will_map true NoSub; DGet (W F_topicName) Bin;
+                   DGet (M F_willPayload) Bin; DWillPayloadCopy]) (mk_state a6 body pos6 (S st5)) =
+      Run (mk_state aw body (pos6 + length WILL) st7)
+    /\ at_pos body (pos6 + length WILL) (USER ++ PASS)).
+  { unfold aw, WILL in *. destruct will as [w|].
+    - destruct Hwill as [Hb2 [Hwps [HwR [Hwt Hwpl]]]].
+      apply (dif_will_spec_at w a6 body pos6 (USER ++ PASS) (S st5)); try assumption.
+      + unfold a6, a5. getf_down2. reflexivity.
+      + unfold a6, a5. getf_down2. reflexivity.
+      + rewrite Hfl6, Bw. exact Hb2.
+    - exists (S st5). cbn [length]. rewrite Nat.add_0_r. split; [|exact H6].
+      rewrite dif_step.
+      change (eval_cond (CHas (M F_flags) WillFlag) (dp (mk_state a6 body pos6 (S st5)))
+                        (env_of (mk_state a6 body pos6 (S st5)))) with (has (getN (M F_flags) a6) WillFlag).
+      rewrite Hfl6, Bw, Hwill. reflexivity. }
+  destruct D7 as [st7 [D7 H7]].
+  set (pos7 := (pos6 + length WILL)%nat) in *.
+  assert (Hflw : getN (M F_flags) aw = flags).
+  { unfold aw. destruct will; [|exact Hfl6]. unfold getN, will_block_s. cbv zeta. getf_down2. exact Hfl6. }
+  assert (Hzw : forall f, In f [F_username; F_password] -> valS (getf (M f) aw) = []).
+  { intros f Hf. cbn [In] in Hf. unfold aw.
+    destruct Hf as [<-|[<-|[]]]; (destruct will; [unfold will_block_s; cbv zeta|]; getf_down2;
+      unfold a6, a5; getf_down2; reflexivity). }
+  set (uv := match user with Some s => s | None => [] end).
+  destruct (dif_bin_at UsernameFlag (M F_username) (VS uv) aw body pos7 PASS st7) as [st8 [D8 H8]].
+  { unfold uv. cbn [valid_val valS]. destruct user; [exact Hus|reflexivity]. }
+  { exact I. }
+  { apply Hzw. cbn; tauto. }
+  { rewrite Hflw, Bu, Hub. unfold USER, uv in *. destruct user as [s|]; cbn [e_opt] in *.
+    - cbn [encode valS]. rewrite <- (e_str_enc_bin s Hus). exact H7.
+    - exact H7. }
+  rewrite Hflw, Bu, Hub in D8, H8.
+  set (au := if match user with Some _ => true | None => false end
+             then setf (M F_username) (canon Bin (VS uv)) aw else aw) in *.
+  assert (EUSER : length (if match user with Some _ => true | None => false end then encode Bin (VS uv) else [])
+                  = length USER).
+  { unfold USER, uv. destruct user as [s|]; cbn [e_opt encode valS]; [rewrite (e_str_enc_bin s Hus)|]; reflexivity. }
+  rewrite EUSER in D8, H8.
+  set (pos8 := (pos7 + length USER)%nat) in *.
+  assert (Hflu : getN (M F_flags) au = flags).
+  { unfold au. destruct user; [|exact Hflw]. unfold getN. getf_down2. exact Hflw. }
+  set (pv := match pass with Some s => s | None => [] end).
+  destruct (dif_bin_at PasswordFlag (M F_password) (VS pv) au body pos8 [] st8) as [st9 [D9 H9]].
+  { unfold pv. cbn [valid_val valS]. destruct pass; [exact Hpa|reflexivity]. }
+  { exact I. }
+  { unfold au. destruct user; getf_down2; apply Hzw; cbn; tauto. }
+  { rewrite Hflu, Bp, Hpb, app_nil_r. unfold PASS, pv in *. destruct pass as [s|]; cbn [e_opt] in *.
+    - cbn [encode valS]. rewrite <- (e_str_enc_bin s Hpa). exact H8.
+    - exact H8. }
+  rewrite Hflu, Bp, Hpb in D9.
+  set (p' := if match pass with Some _ => true | None => false end
+             then setf (M F_password) (canon Bin (VS pv)) au else au) in *.
+  assert (Hdec : unmarshal KConnect fresh body = UOk p').
+  { eapply unmarshal_of_run. cbn [dec_of]. unfold dec_connect.
+    rewrite (run_dec_cons _ _ _ _ D1), (run_dec_cons _ _ _ _ D2), (run_dec_cons _ _ _ _ D3),
+            (run_dec_cons _ _ _ _ D4), (run_dec_cons _ _ _ _ D5), (run_dec_cons _ _ _ _ D6),
+            (run_dec_cons _ _ _ _ D7), (run_dec_cons _ _ _ _ D8), (run_dec_cons _ _ _ _ D9). reflexivity. }
+  (* values *)
+  assert (T : Forall (fun r => getf r p' = getf r a6)
+            ([M F_fixed; M F_protocolName; M F_protocolVersion; M F_flags; M F_keepAlive; M F_clientID]
+             ++ map fst (refs_of connect_map))).
+  { unfold refs_of, connect_map. cbn [map app eref ewt fst snd].
+    repeat (apply Forall_cons; [unfold p', au, aw; destruct pass, user, will;
+                                try (unfold will_block_s; cbv zeta); getf_down2; reflexivity|]).
+    apply Forall_nil. }
+  cbn [map app refs_of connect_map eref ewt fst snd] in T.
+  repeat match goal with H : Forall _ (_ :: _) |- _ =>
+    let H1 := fresh "T" in pose proof (Forall_inv H) as H1; cbv beta in H1; apply Forall_inv_tail in H end.
+  clear T.
+  assert (Eflags : getf (M F_flags) a6 = VN flags) by (unfold a6, a5; getf_down2; reflexivity).
+  assert (Ever : getf (M F_protocolVersion) a6 = VN 5) by (unfold a6, a5; getf_down2; reflexivity).
+  assert (Ename : getf (M F_protocolName) a6 = VS mqtt5) by (unfold a6, a5; getf_down2; reflexivity).
+  assert (Eka : getf (M F_keepAlive) a6 = VN ka) by (unfold a6, a5; getf_down2; reflexivity).
+  assert (Ecid : getf (M F_clientID) a6 = VS cid) by (unfold a6; getf_down2; reflexivity).
+  assert (Emap : forall f, getf (M f) a6 = getf (M f) a5 \/ f = F_clientID).
+  { intros f. destruct (fld_eqb f F_clientID) eqn:E; [right; apply fld_eqb_true; exact E|left].
+    unfold a6. apply getf_setf_other. exact E. }
+  assert (Euser : OS (valS (getf (M F_username) p')) = opt_s user).
+  { assert (E : getf (M F_username) p' = getf (M F_username) au)
+      by (unfold p'; destruct pass; getf_down2; reflexivity).
+    rewrite E. unfold au, uv. destruct user as [s|]; [getf_down2; reflexivity|].
+    rewrite Hzw by (cbn; tauto). reflexivity. }
+  assert (Epass : OS (valS (getf (M F_password) p')) = opt_s pass).
+  { unfold p', pv. destruct pass as [s|]; [getf_down2; reflexivity|].
+    assert (E : valS (getf (M F_password) au) = []).
+    { unfold au. destruct user; getf_down2; apply Hzw; cbn; tauto. }
+    rewrite E. reflexivity. }
+  assert (Eu : uprops p' = pairs ps).
+  { assert (E6 : uprops a6 = pairs ps).
+    { unfold a6. rewrite uprops_setf. unfold a5. rewrite uprops_apply_props. reflexivity. }
+    assert (Ew : uprops aw = pairs ps).
+    { unfold aw. destruct will; [|exact E6]. unfold will_block_s. cbv zeta.
+      rewrite !uprops_setf, uprops_apply_props. exact E6. }
+    unfold p', au. destruct pass, user; rewrite ?uprops_setf; exact Ew. }
+  assert (Hthru_w : forall f, getf (W f) p' = getf (W f) aw).
+  { intros f. unfold p', au. destruct pass, user; reflexivity. }
+  assert (Ehw : hasWill p' = match will with Some _ => true | None => false end).
+  { assert (Ew : hasWill aw = match will with Some _ => true | None => false end).
+    { unfold aw. destruct will.
+      - unfold will_block_s. cbv zeta. rewrite !hasWill_setf, hasWill_apply_props. reflexivity.
+      - unfold a6. rewrite hasWill_setf. unfold a5. rewrite hasWill_apply_props. reflexivity. }
+    unfold p', au. destruct pass, user; rewrite ?hasWill_setf; exact Ew. }
+  assert (Edelay : ON (valN (getf (M F_willDelayInterval) p')) =
+                   match will with Some w => pnum 24 (w_props w) | None => ON 0 end).
+  { assert (E : getf (M F_willDelayInterval) p' = getf (M F_willDelayInterval) aw)
+      by (unfold p', au; destruct pass, user; getf_down2; reflexivity).
+    rewrite E. unfold aw. destruct will as [w|].
+    - destruct Hwill as [_ [Hwps _]].
+      pose proof (sprops_prop_ok _ will_map true NoSub _ table_will Hwps) as Hokw.
+      pose proof (sprops_keyed _ _ Hwps) as Hdupw.
+      unfold will_block_s. cbv zeta. getf_down2.
+      apply (obs_num will_map true NoSub (w_props w) (will_init a6) (proj2 (proj2 will_map_ok)) Hokw Hdupw
+                     24 (M F_willDelayInterval) U32); try reflexivity; try discriminate; try exact I.
+      rewrite getf_will_init_M. unfold a6, a5. getf_down2. reflexivity.
+    - unfold a6, a5. getf_down2. reflexivity. }
+  apply (accepts_intro _ KConnect fresh p'); [reflexivity| |reflexivity|].
+  { cbn [af_body]. rewrite Ebody.
+    assert (Hne : body <> []) by (unfold body, enc_bin, enc_u16; cbn [app]; discriminate).
+    destruct body as [|b0 body0] eqn:Eb; [congruence|]. exact Hdec. }
+  unfold snapshot, frame_obs. cbn [af_body]. unfold oN, oB, oS, getN, getB, getS.
+  rewrite Euser, Epass, Eu, Edelay, Ehw, oprops_pairs.
+  repeat match goal with H : getf ?r p' = getf ?r a6 |- _ => rewrite H; clear H end.
+  rewrite Eflags, Ever, Ename, Eka, Ecid. cbn [valN valS]. rewrite Bc.
+  assert (Hm5 : forall f, f <> F_clientID -> getf (M f) a6 = getf (M f) a5).
+  { intros f Hf. destruct (Emap f) as [E|E]; [exact E|contradiction]. }
+  rewrite !Hm5 by discriminate. unfold a5.
+  rewrite (obs_num connect_map false NoSub ps a4 Hnd Hok Hdup 17 (M F_sessionExpiryInterval) U32) by (reflexivity || discriminate || exact I).
+  rewrite (obs_num connect_map false NoSub ps a4 Hnd Hok Hdup 33 (M F_receiveMax) U16) by (reflexivity || discriminate || exact I).
+  rewrite (obs_num connect_map false NoSub ps a4 Hnd Hok Hdup 39 (M F_maxPacketSize) U32) by (reflexivity || discriminate || exact I).
+  rewrite (obs_num connect_map false NoSub ps a4 Hnd Hok Hdup 34 (M F_topicAliasMax) U16) by (reflexivity || discriminate || exact I).
+  rewrite (obs_bool connect_map false NoSub ps a4 Hnd Hok Hdup 25 (M F_requestResponseInfo)) by (reflexivity || discriminate).
+  rewrite (obs_bool connect_map false NoSub ps a4 Hnd Hok Hdup 23 (M F_requestProblemInfo)) by (reflexivity || discriminate).
+  rewrite (obs_str connect_map false NoSub ps a4 Hnd Hok Hdup 21 (M F_authMethod)) by (reflexivity || discriminate).
+  rewrite (obs_str connect_map false NoSub ps a4 Hnd Hok Hdup 22 (M F_authData)) by (reflexivity || discriminate).
+  destruct will as [w|]; [|reflexivity].
+  (* the will message *)
+  destruct Hwill as [_ [Hwps [_ [Hwt Hwpl]]]].
+  pose proof (sprops_prop_ok _ will_map true NoSub _ table_will Hwps) as Hokw.
+  pose proof (sprops_keyed _ _ Hwps) as Hdupw.
+  assert (Hndw : nodup_refs will_map = true) by apply will_map_ok.
+  unfold snap_publish, will_pkt, oN, oB, oS, getN, getB, getS, getf. cbn [vals uprops subids].
+  change (wvals p') with (fun f => getf (W f) p'). cbv beta. rewrite !Hthru_w.
+  assert (Ewu : wuprops p' = pairs (w_props w)).
+  { assert (E : wuprops p' = wuprops aw) by (unfold p', au; destruct pass, user; rewrite ?wuprops_setf; reflexivity).
+    rewrite E. unfold aw, will_block_s. cbv zeta. rewrite !wuprops_setf, wuprops_apply_props. reflexivity. }
+  assert (Ews : wsubids p' = []).
+  { assert (E : wsubids p' = wsubids aw) by (unfold p', au; destruct pass, user; rewrite ?wsubids_setf; reflexivity).
+    rewrite E. unfold aw, will_block_s. cbv zeta. rewrite !wsubids_setf.
+    rewrite (proj_apply_props _ wsubids wsubids_setf); [reflexivity| | |]; intros; try reflexivity.
+    apply append_ups_other. }
+  rewrite Ewu, Ews, oprops_pairs.
+  unfold aw, will_block_s. cbv zeta.
+  assert (Efx : getf (W F_fixed) (will_init a6) = VN (will_fixed flags)).
+  { rewrite getf_will_init_W, Hfl6. reflexivity. }
+  getf_down2. unfold getS. getf_down2. rewrite Efx. cbn [valN valS canon]. rewrite Wdup, Wret, Wqos.
+  rewrite (obs_bool will_map true NoSub (w_props w) (will_init a6) Hndw Hokw Hdupw 1 (W F_payloadFormat)) by (reflexivity || discriminate).
+  rewrite (obs_num will_map true NoSub (w_props w) (will_init a6) Hndw Hokw Hdupw 2 (W F_messageExpiryInterval) U32) by (reflexivity || discriminate || exact I).
+  rewrite (obs_str will_map true NoSub (w_props w) (will_init a6) Hndw Hokw Hdupw 8 (W F_responseTopic)) by (reflexivity || discriminate).
+  rewrite (obs_str will_map true NoSub (w_props w) (will_init a6) Hndw Hokw Hdupw 9 (W F_correlationData)) by (reflexivity || discriminate).
+  rewrite (obs_str will_map true NoSub (w_props w) (will_init a6) Hndw Hokw Hdupw 3 (W F_contentType)) by (reflexivity || discriminate).
+  rewrite (getf_apply_other will_map true NoSub (w_props w) (will_init a6) (W F_topicAlias)) by reflexivity.
+  rewrite !getf_will_init_W. cbn [upd fld_eqb fld_idx N.eqb Pos.eqb no_vals valN].
+  reflexivity.
+Qed.
+
+(* ------------------------------------------------------------------ *)
+(* PINGREQ, PINGRESP *)
+Theorem accept_ping t : t = 12 \/ t = 13 -> accepts {| af_type := t; af_flags := 0; af_body := BPing |}.
+Proof.
+  intros [-> | ->].
+  - apply (accepts_intro _ KPingReq (setf (M F_fixed) (VN 192) zero_pkt) (setf (M F_fixed) (VN 192) zero_pkt)); reflexivity.
+  - apply (accepts_intro _ KPingResp (setf (M F_fixed) (VN 208) zero_pkt) (setf (M F_fixed) (VN 208) zero_pkt)); reflexivity.
+Qed.
+
+(* ------------------------------------------------------------------ *)
+(* The valid frames, in the specification's terms.  The only restriction
+   that is the library's and not the specification's is the last clause of
+   DISCONNECT (known finding D13). *)
+Definition frame_ok (f : aframe) : Prop :=
+  let t := af_type f in
+  let fl := af_flags f in
+  match af_body f with
+  | BConnect flags ka ps cid will user pass =>
+      t = 1 /\ fl = 0 /\ connect_frame_ok flags ka ps cid will user pass
+  | BConnack a rc ps =>
+      t = 2 /\ fl = 0 /\ a <= 1 /\ rc < 256 /\ sprops_ok 2 ps /\ len (e_props_raw ps) < 268435456
+  | BPublish topic pid ps payload =>
+      t = 3 /\ fl < 16 /\ (fl / 2) mod 4 <> 3 /\ len topic < 65536
+      /\ match pid with Some i => i < 65536 /\ (fl / 2) mod 4 <> 0 | None => (fl / 2) mod 4 = 0 end
+      /\ sprops_ok 3 ps /\ len (e_props_raw ps) < 268435456
+  | BAck pid form rc ps =>
+      (t = 4 \/ t = 5 \/ t = 6 \/ t = 7) /\ fl = (if t =? 6 then 2 else 0)
+      /\ pid < 65536 /\ rc < 256 /\ ack_frame_ok form rc ps t
+  | BSubscribe pid ps fs =>
+      t = 8 /\ fl = 2 /\ pid < 65536 /\ sprops_ok 8 ps /\ len (e_props_raw ps) < 268435456
+      /\ Forall filter_ok fs
+  | BSuback pid ps codes =>
+      (t = 9 \/ t = 11) /\ fl = 0 /\ pid < 65536 /\ sprops_ok t ps /\ len (e_props_raw ps) < 268435456
+      /\ Forall (fun n => n < 256) codes
+  | BUnsubscribe pid ps fs =>
+      t = 10 /\ fl = 2 /\ pid < 65536 /\ sprops_ok 10 ps /\ len (e_props_raw ps) < 268435456
+      /\ Forall (fun f => len f < 65536) fs
+  | BPing => (t = 12 \/ t = 13) /\ fl = 0
+  | BDisc form rc ps => (t = 14 \/ t = 15) /\ fl = 0 /\ rc < 256 /\ disc_frame_ok t form rc ps
+  end.
+
+Theorem accepts_all f : frame_ok f -> accepts f.
+Proof.
+  destruct f as [t fl b]. unfold frame_ok. cbn [af_type af_flags af_body].
+  destruct b as [flags ka ps cid will user pass|a rc ps|topic pid ps payload|pid form rc ps|pid ps fs|pid ps codes
+                |pid ps fs| |form rc ps].
+  - intros [-> [-> H]]. apply accept_connect. exact H.
+  - intros [-> [-> [H1 [H2 [H3 H4]]]]]. apply accept_connack; assumption.
+  - intros [-> [H1 [H2 [H3 [H4 [H5 H6]]]]]]. apply accept_publish; assumption.
+  - intros [Ht [-> [H1 [H2 H3]]]].
+    destruct Ht as [-> |[-> |[-> | ->]]].
+    + apply (accept_ack KPubAck); try assumption; reflexivity.
+    + apply (accept_ack KPubRec); try assumption; reflexivity.
+    + apply (accept_ack KPubRel); try assumption; reflexivity.
+    + apply (accept_ack KPubComp); try assumption; reflexivity.
+  - intros [-> [-> [H1 [H2 [H3 H4]]]]]. apply accept_subscribe; assumption.
+  - intros [Ht [-> [H1 [H2 [H3 H4]]]]]. destruct Ht as [-> | ->].
+    + apply (accept_suback KSubAck); try assumption; reflexivity.
+    + apply (accept_suback KUnsubAck); try assumption; reflexivity.
+  - intros [-> [-> [H1 [H2 [H3 H4]]]]]. apply accept_unsubscribe; assumption.
+  - intros [Ht ->]. apply accept_ping. exact Ht.
+  - intros [Ht [-> [H1 H2]]]. destruct Ht as [-> | ->].
+    + apply accept_disconnect; assumption.
+    + apply accept_auth; assumption.
+Qed.
